@@ -143,6 +143,14 @@ fn run_unit_supervised(
                 incomplete: false,
             }
         }
+        WorkerEnd::Died(why) if why.contains("PANIC-OUTSIDE-CASE") => {
+            return UnitOutcome {
+                result: None,
+                deaths: vec![],
+                machinery: Some(format!("unit {}: the check itself panicked outside a case: {}", unit, why)),
+                incomplete: true,
+            };
+        }
         WorkerEnd::Died(why) => {
             eprintln!(
                 "[driver] {} unit {} worker died ({}); re-running in pinpoint mode",
